@@ -338,18 +338,18 @@ pub fn run(args: &Args, r: &mut Report) {
             if wl == 4 {
                 // every single mutating operation failing
                 for k in 0..n_ops {
-                    plans.push((FaultPlan { fail_ops: vec![k], fail_all: false }, format!("single@{}", k)));
+                    plans.push((FaultPlan { fail_ops: vec![k], fail_all: false, ..Default::default() }, format!("single@{}", k)));
                 }
             } else {
-                plans.push((FaultPlan { fail_ops: vec![], fail_all: true }, "all".into()));
+                plans.push((FaultPlan { fail_ops: vec![], fail_all: true, ..Default::default() }, "all".into()));
                 for _ in 0..6 {
                     let k = 2 + rng.usize(4);
                     let ops: Vec<u64> = (0..k).map(|_| rng.below(n_ops.max(1))).collect();
-                    plans.push((FaultPlan { fail_ops: ops, fail_all: false }, format!("subset{}", k)));
+                    plans.push((FaultPlan { fail_ops: ops, fail_all: false, ..Default::default() }, format!("subset{}", k)));
                 }
                 if n_ops >= 2 {
                     for a in 0..n_ops.min(12) {
-                        plans.push((FaultPlan { fail_ops: vec![a, a + 1], fail_all: false }, "pair".into()));
+                        plans.push((FaultPlan { fail_ops: vec![a, a + 1], fail_all: false, ..Default::default() }, "pair".into()));
                     }
                 }
             }
